@@ -44,6 +44,10 @@ var (
 	SolverLogic   = "QF_BV"
 	QueryTimeoutMs = 20000
 	KeepChecks    = false
+	SlowLog       = 0.0
+	CurWhere      = ""
+	QueryKind     = ""
+	QStats        = map[string][2]float64{}
 )
 
 func startSolver(name string) (*exec.Cmd, io.WriteCloser, *bufio.Reader) {
@@ -146,6 +150,20 @@ func (s *Solver) Check(assumps []*Term) string {
 	d := time.Since(t0)
 	s.Time += d
 	s.Queries++
+	if SlowLog > 0 {
+		k := CurWhere
+		if i := strings.Index(k, ": "); i > 0 {
+			k = k[:i]
+		}
+		k += " / " + QueryKind
+		st := QStats[k]
+		st[0]++
+		st[1] += d.Seconds()
+		QStats[k] = st
+	}
+	if SlowLog > 0 && d.Seconds() > SlowLog {
+		fmt.Printf("  slow query #%d %.2fs -> %s   [%s]\n", s.Queries, d.Seconds(), res, CurWhere)
+	}
 	if strings.HasPrefix(res, "(error") {
 		panic(unsupported("solver error: " + res))
 	}
